@@ -55,9 +55,12 @@ impl<H: Hasher> BatchMerkleProof<H> {
 
         // sort indexes in ascending order, and also re-arrange paths accordingly
         let mut path_map = BTreeMap::new();
-        for (&index, path) in indexes.iter().zip(paths.iter().cloned()) {
+        let mut leaf_positions = BTreeMap::new();
+        for (position, (&index, path)) in indexes.iter().zip(paths.iter().cloned()).enumerate() {
             assert_eq!(depth, path.len(), "not all paths have the same length");
             path_map.insert(index, path);
+            // leaves of a batch proof are kept in the order of the caller's index list
+            leaf_positions.insert(index, position);
         }
         let indexes = path_map.keys().cloned().collect::<Vec<_>>();
         let paths = path_map.values().cloned().collect::<Vec<_>>();
@@ -69,9 +72,9 @@ impl<H: Hasher> BatchMerkleProof<H> {
         // populate values and the first layer of proof nodes
         let mut i = 0;
         while i < indexes.len() {
-            leaves[i] = paths[i][0];
+            leaves[leaf_positions[&indexes[i]]] = paths[i][0];
             if indexes.len() > i + 1 && are_siblings(indexes[i], indexes[i + 1]) {
-                leaves[i + 1] = paths[i][1];
+                leaves[leaf_positions[&indexes[i + 1]]] = paths[i][1];
                 nodes.push(vec![]);
                 i += 1;
             } else {
